@@ -23,6 +23,7 @@ LEVEL_TEXT = ('static lock-context (lock-set) analysis and condition-protocol ty
               'fairness are not decided.')
 LEVEL_NOTE = 'assumes attribute loads and constant-index subscripts of a popped entry do not raise'
 LEVEL_TEXT_ADD = ' Also: the scheduling base time is read under the main lock in the RT branch of sched; scheduler receivers are typed by the constructor assigned to the attribute.'
+LEVEL_TEXT_ADD += ' Rounds e-f: no infinite time reaches a queue (every queueing site), timed waits bounded by threading.TIMEOUT_MAX, parked entries woken front to back, queue contract (shared with C09).'
 LEVEL_TEXT = (globals().get('LEVEL_TEXT') or EXPLANATION) + LEVEL_TEXT_ADD
 TECHNIQUE = 'static analysis: lock-set/lock-context analysis with call-site propagation + wait/notify protocol rules'
 
